@@ -37,7 +37,7 @@ EXPLANATION = (
 ASSUMPTIONS = ["TSDataView::subscribe/unsubscribe are the only ways a target can reach a consumer (C03.a/b)",
                "TimeSeriesReference::operator== is identity of the designated output (time_series_reference.cpp)"]
 DECIDED = ["a selection operators", "c consumer blend", "d sampled bind", "e cross-boundary clamp (shared C09.b)", "f re-subscription on retarget",
-           "g refresh re-applies the reference", "h same-target de-dup and sampling mode", "j unsubscribe before a target handle is dropped", "k slot-id bounds of the keyed retarget delta"]
+           "g refresh re-applies the reference", "h same-target de-dup and sampling mode", "j unsubscribe before a target handle is dropped", "k slot-id bounds of the keyed retarget delta", "m lazily cleared masks of the old target consulted for the transition cycle only"]
 NOT_DECIDED = ["observed value/delta equals the target's at every tick", "keyed-shape old/new difference", "unselected targets never wake the consumer at run time"]
 
 
@@ -359,8 +359,51 @@ def check(run: Run) -> None:
                         "slot id are bounded by the slot capacity, never by the live count (a shared key above a hole would count as added)"):
         R.slot_bounds(run, "C13.k", ["src/hgraph/types/time_series/"], floor=4)
 
+    with run.obligation("C13.m", "K1+K2", "the old target's added/removed slot masks are cleared lazily (on ITS next tick): the retarget delta consults them "
+                        "only for the transition cycle - a slot counts as previously published iff it is published and was not added in the transition "
+                        "cycle and was not already removed in an earlier cycle; the fallback scan over removed slots runs only if the old target ticked"):
+        OPS = "src/hgraph/types/time_series/ts_input/target_link_ops.cpp"
+        fa = R.fn(run, OPS, "target_link_previous_slot_was_published")
+        PREV = r"target_link_previous_view\(context,memory\)"
+        ACC = r".*slot_access->"
+        roles = [Role("LNULL", "bool", r"target_link_for\(context,memory\)==nullptr|nullptr==target_link_for\(context,memory\)"),
+                 Role("PV", "bool", PREV + r"\.valid\(\)"), Role("SANULL", "bool", ACC[:-2] + r"==nullptr|nullptr==" + ACC[:-2]),
+                 Role("OCC", "bool", ACC + r"slot_occupied\(" + PREV + r",slot\)"),
+                 Role("TICKED", "bool", PREV + r"\.modified\(target_link_for\(context,memory\)->structural_transition_time\(\)\)"),
+                 Role("ADDED", "bool", ACC + r"slot_added\(" + PREV + r",slot\)"), Role("REMOVED", "bool", ACC + r"slot_removed\(" + PREV + r",slot\)", required=False),
+                 Role("PUB", "bool", ACC + r"slot_published\(" + PREV + r",slot\)")]
+
+        def spec(v):
+            if v.b("LNULL") or not v.b("PV") or v.b("SANULL") or not v.b("OCC"):
+                return Expect(ret=False)
+            ticked = v.b("TICKED")
+            if not v.b("PUB"):
+                return Expect(ret=False)
+            if ticked and v.b("ADDED"):
+                return Expect(ret=False)
+            if (not ticked) and v.b("REMOVED"):
+                return Expect(ret=False)
+            return Expect(ret=True)
+        R.k1(run, "C13.m", fa, roles, spec, what="target_link_previous_slot_was_published")
+        fa = R.fn(run, OPS, "target_link_previous_contains_published")
+        fl = R.flow(run, fa)
+        gate = lambda n: n.kind == "cond" and "previous.modified(" in n.label.replace("target_link_previous_view(context,memory)", "previous") and "structural_transition_time" in n.label
+        mask = R.call_is(name="slot_removed")
+        R.require_nodes(run, fl, mask, "removed-mask scan")
+        w = fl.reach([fl.start], avoid=gate, targets=mask, after_source=False)
+        run.count(1, "C13.m.scan-gated")
+        if w is not None:
+            run.finding("C13.m", "previous_contains_published:ungated-mask-scan", "the removed-mask scan of the old target runs without testing that the old target "
+                        "ticked in the transition cycle: " + fl.path_text(w), loc=fl.cfg.describe(w[-1][0]))
+        w = fl.reach([fl.start], targets=mask, after_source=False, edge_skip=lambda node, lab: gate(node) and lab == "T")
+        if w is not None:
+            run.finding("C13.m", "previous_contains_published:gate-polarity", "the removed-mask scan is reachable when the old target did NOT tick in the transition cycle",
+                        loc=fl.cfg.describe(w[-1][0]))
+
 
 VARIANTS = [
+    {"id": "m-revert-fix-stale-removed-mask", "expect": "C13.m", "edits": [{"file": "src/hgraph/types/time_series/ts_input/target_link_ops.cpp", "find": "            return state->slot_access->slot_published(previous, slot) && !added_in_transition &&\n                   !removed_earlier;", "replace": "            return state->slot_access->slot_published(previous, slot) && !added_in_transition;"}]},
+    {"id": "m-removed-scan-ungated", "expect": "C13.m", "edits": [{"file": "src/hgraph/types/time_series/ts_input/target_link_ops.cpp", "find": "            if (!previous.modified(link->structural_transition_time())) { return false; }\n", "replace": ""}]},
     {"id": "k-previous-scan-bounded-by-size", "expect": "C13.k", "edits": [{"file": "src/hgraph/types/time_series/ts_input/target_link_ops.cpp", "find": "            const auto capacity = state->slot_access->slot_capacity(previous);", "replace": "            const auto capacity = state->slot_access->size(previous);"}]},
     {"id": "f-rebind-keeps-old-subscription", "expect": "C13.f", "edits": [{"file": ALT, "find": "            if (!source.same_as(next_source))\n            {\n                unsubscribe_source();\n                source = next_source;\n                subscribe_source();\n            }\n            refresh(new_source.evaluation_time());", "replace": "            if (!source.same_as(next_source))\n            {\n                source = next_source;\n                subscribe_source();\n            }\n            refresh(new_source.evaluation_time());"}]},
     {"id": "f-replace-sources-without-unsubscribe", "expect": "C13.f", "edits": [{"file": ALT, "find": "            unsubscribe_reference_sources();\n            reference_sources = std::move(next);", "replace": "            reference_sources = std::move(next);"}]},
